@@ -29,6 +29,7 @@ type Desc struct {
 	SD    float64 // sqrt(Var)
 	SS    float64 // sum (x-mean)^2
 	SumSq float64 // sum x^2
+	Norm  float64 // sqrt(sum x^2), rounded once (finite where SumSq overflows float64)
 
 	NonPos     bool    // some value of non-zero weight is <= 0
 	Geo        float64 // exp(sum w ln x / W); NaN when NonPos or W == 0
@@ -47,7 +48,7 @@ func Describe(xs, ws []float64) *Desc {
 func describe(xs, ws []float64, logPath bool) *Desc {
 	nan := math.NaN()
 	d := &Desc{N: len(xs), Weighted: ws != nil, IntW: true, IntWhole: true,
-		Mean: nan, MeanAbs: nan, Var: nan, SD: nan, SS: nan, SumSq: nan,
+		Mean: nan, MeanAbs: nan, Var: nan, SD: nan, SS: nan, SumSq: nan, Norm: nan,
 		Geo: nan, MeanAbsLog: nan, Min: nan, Max: nan}
 	sum, sumAbs, W, sumSq := nf(), nf(), nf(), nf()
 	for i, x := range xs {
@@ -90,6 +91,7 @@ func describe(xs, ws []float64, logPath bool) *Desc {
 	d.MeanAbs = F64(Quo(sumAbs, W))
 	if ws == nil {
 		d.SumSq = F64(sumSq)
+		d.Norm = F64(Sqrt(sumSq))
 		if len(xs) >= 2 {
 			ss := nf()
 			for _, x := range xs {
